@@ -17,6 +17,7 @@ open Oras Oras.Driver
 
 structure St where
   file : Bool := false
+  cas : Bool := false                  -- file store with ForceCAS
   isMan : List (Nat × Bool) := []
   succD : List (Nat × List SDesc) := []
   dig : List (Nat × Nat) := []
@@ -64,7 +65,7 @@ def absGate (s : St) (nm : Option Nat) : Bool :=
 def step (s : St) (toks : List String) : Option (St × String × String) :=
   let c := s.cfg
   match toks with
-  | "new" :: rest => do some ({ file := (← kv rest "kind") == "file" }, "ok", "ok")
+  | "new" :: rest => do some ({ file := (← kv rest "kind") == "file", cas := (kv rest "cas") == some "1" }, "ok", "ok")
   | "node" :: n :: rest => do
       let n ← n.toNat?
       let ss ← parseSucc (← kv rest "succ")
@@ -89,7 +90,7 @@ def step (s : St) (toks : List String) : Option (St × String × String) :=
           else { s with absContent := n :: s.absContent }
         -- duplicate restoration: names listed by a stored manifest materialise when the
         -- same content is present
-        let s0 := if s.file && c.isMan n then
+        let s0 := if s.file && !s.cas && c.isMan n then
             (c.succD n).foldl (fun acc d => match d.name with
               | some k => if acc.absNamed.any (·.1 == k) || !absPresent acc d.node then acc
                           else { acc with absNamed := (k, d.node) :: acc.absNamed }
@@ -99,7 +100,7 @@ def step (s : St) (toks : List String) : Option (St × String × String) :=
       let sp := if okSpec then "ok" else "err"
       -- model
       if s.file then
-        let (fs', r) := s.fs.push c (!Gen.fileRecordsPathAfterCopy) ⟨n, nm⟩ good
+        let (fs', r) := s.fs.push c (!Gen.fileRecordsPathAfterCopy) ⟨n, nm⟩ good s.cas
         some ({ s1 with fs := fs' }, showU r, sp)
       else
         let (m', r) := s.mem.push c n good
